@@ -119,6 +119,14 @@ class ClockModel:
                     # ended by an enclosing deadline, not by itself: the activity does not go on
                     return NEVER
                 now = ex
+            elif op == 'cleanup':
+                # a block with asynchronous but timeless clean-up on interruption: transparent for the clock
+                if any(f['op'] != 'instant' for f in s.get('final', ())):
+                    raise InvalidCase('clean-up code of the clock language takes no time')
+                be = self.steps(act, idx + ('b',), s.get('body', ()), now, H)
+                if be is NEVER:
+                    return NEVER
+                now = be
             else:
                 raise InvalidCase('op %r not in the C01 language' % op)
         return now
